@@ -21,7 +21,7 @@ package jet
 //@ func (Node).Type
 //@   trusted every implementation is NodeType.Type promoted through NodeBase (checked by scan)
 //@   nopanic
-//@   ensures result == NodeTypeOf(recv)
+//@   ensures result == NTF(recv)
 //@ func (Node).errorf
 //@   trusted every implementation is (*NodeBase).errorf
 //@   noreturn
@@ -442,7 +442,7 @@ package jet
 //@   loop 1 invariant [ctx] context == old(st.context) && (valVarSlot >= 0 ==> st.context == context)
 //@   loop 1 invariant [scope] ite(isLet, st.scope.parent != nil && ite(inNewScope, st.scope.parent.parent == old(st.scope), st.scope.parent == old(st.scope)), ite(inNewScope, st.scope.parent == old(st.scope), st.scope == old(st.scope)))
 //@   loop 0 monotone [return-value-kept] {C09} RvValid(returnValue)
-//@   loop 0 step [if-renders-exactly-one-branch] {C05} NodeTypeOf(list.Nodes[prev(i)]) == NodeIf ==> ite(lastret("isTrue", 0), visits("(*Runtime).executeList", 0) == prev(visits("(*Runtime).executeList", 0)) + 1 && visits("(*Runtime).executeList", 1) == prev(visits("(*Runtime).executeList", 1)), visits("(*Runtime).executeList", 0) == prev(visits("(*Runtime).executeList", 0)) && visits("(*Runtime).executeList", 1) == prev(visits("(*Runtime).executeList", 1)) + ite(as(list.Nodes[prev(i)], "*IfNode").ElseList != nil, 1, 0))
+//@   loop 0 step [if-renders-exactly-one-branch] {C05} NTF(list.Nodes[prev(i)]) == NodeIf ==> ite(lastret("isTrue", 0), visits("(*Runtime).executeList", 0) == prev(visits("(*Runtime).executeList", 0)) + 1 && visits("(*Runtime).executeList", 1) == prev(visits("(*Runtime).executeList", 1)), visits("(*Runtime).executeList", 0) == prev(visits("(*Runtime).executeList", 0)) && visits("(*Runtime).executeList", 1) == prev(visits("(*Runtime).executeList", 1)) + ite(as(list.Nodes[prev(i)], "*IfNode").ElseList != nil, 1, 0))
 //@   loop 1 step [range-body-once-per-element] {C05} visits("(*Runtime).executeList", 2) == prev(visits("(*Runtime).executeList", 2)) + 1 && visits("(Ranger).Range", 1) == prev(visits("(Ranger).Range", 1)) + 1
 //@   loop 1 invariant [range-slots] {C05} ite(!isSet, valVarSlot == -1, ite(len(node.Set.Left) > 1, keyVarSlot == 0 && valVarSlot == 1 && lastret("(Ranger).ProvidesIndex", 0), ite(lastret("(Ranger).ProvidesIndex", 0), keyVarSlot == 0 && valVarSlot == -1, keyVarSlot == -1 && valVarSlot == 0)))
 //@   callsite (*Runtime).executeList 0 requires [if-branch-taken-when-truthy] {C05} lastret("isTrue", 0) && list == caller.node.List
@@ -579,7 +579,7 @@ package jet
 
 //@ func (*escapeeWriter).Write
 //@   props C01
-//@   requires w != nil && w.set != nil
+//@   requires w != nil && w.set != nil && w.Writer != nil
 //@   modifies ghost T
 //@   ensures [escaped-exactly-once] T == ite(w.set.escapee == nil, EvWrite(old(T), w.Writer, b), EvEsc(old(T), w.set.escapee, w.Writer, b))
 
@@ -591,6 +591,7 @@ package jet
 
 //@ func unsafePrinter
 //@   props C01
+//@   requires w != nil
 //@   modifies ghost T
 //@   ensures [raw-writes-verbatim] T == EvWrite(old(T), w, b)
 
